@@ -232,6 +232,9 @@ RunDefers(P, ds, st) ==
              THEN LET b == st1.cells[d.ref.back] IN Emit1(st1, <<"d", b[1], b[2], b[3]>>)
              ELSE IF d.k = "relm"        \* relm(m) : the map is fixed, its content is read now
              THEN Emit1(st1, <<"d", MapLen(st1, d.ref), MapGet(st1, d.ref, 0)>>)
+             ELSE IF d.k = "nilfn"       \* var hn func(); defer hn() : the deferred call of a nil function value faults WHEN THE
+                                         \* CALL IS MADE (the function ends), not when the defer statement is executed
+             THEN Panic(st1, "fault")
              ELSE IF d.k = "mdel"        \* delete(m, k) with map and key fixed at the defer statement
              THEN (IF d.mv.mp = 0 THEN st1 ELSE Store(st1, d.mv.mp, [st1.cells[d.mv.mp] EXCEPT !.pres = @ \ {d.key}]))
              ELSE CallFn(P, d.f, d.vs, st1).st
@@ -472,6 +475,7 @@ ExecS(P, s, env, st0, ctx) ==
                     dd == CASE s.form = "method" -> [k |-> "method", id |-> id, vs |-> <<a.v>>,
                                                       base |-> IF s.via = "ptr" THEN a.st.cells[env[s.s]].ptr ELSE SBase(s.s, env)]
                             [] s.form = "clo"    -> [k |-> "clo", id |-> id, c |-> a.st.cells[env[s.s]]]
+                            [] s.form = "nilfn"  -> [k |-> "nilfn", id |-> id]
                             [] s.form = "mdel"   -> [k |-> "mdel", id |-> id, mv |-> a.st.cells[env[s.s]], key |-> a.v % 4]
                             [] s.form \in {"relp", "relq", "rels", "relm"} -> [k |-> s.form, id |-> id, ref |-> a.st.cells[env[s.s]]]
                             [] OTHER             -> [k |-> s.form, id |-> id, f |-> s.f, vs |-> <<a.v>>]
